@@ -294,8 +294,13 @@ func c11Slots() []c11Slot {
 				return out
 			}},
 		{name: "source-filename",
-			build: func(ss []string) *ir.Module { m := ir.NewModule(); m.SourceFilename = ss[0]; m.NewGlobalDef("g", i32c(0)); return m },
-			read:  func(m *ir.Module) []string { return []string{m.SourceFilename} }},
+			build: func(ss []string) *ir.Module {
+				m := ir.NewModule()
+				m.SourceFilename = ss[0]
+				m.NewGlobalDef("g", i32c(0))
+				return m
+			},
+			read: func(m *ir.Module) []string { return []string{m.SourceFilename} }},
 		{name: "syncscope",
 			build: func(ss []string) *ir.Module {
 				m := ir.NewModule()
